@@ -537,7 +537,7 @@ func TestVerifDynamic(t *testing.T) {
 							}
 							want = append(want, in[14:]...)
 							// and a tunables-like file whose directives start in column 0
-							in0 := []string{"# tunables", "", "#aa:only " + f1, "@{one} = /a", "", "#aa:exclude " + f3, "@{two} = /b", "", "@{three} = /c", ""}
+							in0 := []string{"# tunables", "", "#aa:only " + f1, "@{one} = /a", "", "#aa:exclude " + f3 + " # a note", "@{two} = /b", "", "@{three} = /c", ""}
 							want0 := []string{"# tunables", ""}
 							if applies(f1) {
 								want0 = append(want0, "", "@{one} = /a", "")
@@ -574,7 +574,7 @@ func TestVerifDynamic(t *testing.T) {
 	r := runDynamic(env, "pkg/prebuild/directive", "C03/only-exclude-text-surgery", src)
 	r.Name = "bounded/C03/only-exclude-text-surgery"
 	r.Kind, r.Backend = "bounded", "go test, exhaustive over 6^3 filter lists x 16 build targets"
-	r.Detail = strings.Replace(r.Detail, "dynamic (not a proof)", "bounded stand-in (not a proof; a tunables-like file with column-0 paragraph directives, and one profile shape with a paragraph only, an inline exclude and a paragraph exclude; 6 filter lists each; 4 distributions x ABI {3,4} x version {4.0,4.1})", 1)
+	r.Detail = strings.Replace(r.Detail, "dynamic (not a proof)", "bounded stand-in (not a proof; a tunables-like file with column-0 paragraph directives (one followed by a trailing comment), and one profile shape with a paragraph only, an inline exclude and a paragraph exclude; 6 filter lists each; 4 distributions x ABI {3,4} x version {4.0,4.1})", 1)
 	return r
 }
 
@@ -673,5 +673,54 @@ func TestVerifDynamic(t *testing.T) {
 	r.Name = "bounded/C13/expansion-of-attachments"
 	r.Kind, r.Backend = "bounded", "go test, 19 attachment patterns over a nine-variable preamble"
 	r.Detail = strings.Replace(r.Detail, "dynamic (not a proof)", "bounded stand-in (not a proof; 19 attachment patterns: forward reference chains, names differing by case, literal //, nested, repeated and adjacent references, trailing slashes, +=, undefined and self-referential variables)", 1)
+	return r
+}
+
+// boundedC16Profiles: bounded stand-in (never counted as proved) for the part of
+// ParseToProfiles that no obligation covers: under which profile a record's rule is filed.
+// The real function is run on records with and without a label, for dbus and other
+// operations; a dbus record is filed under its label, every other record under its profile.
+func boundedC16Profiles(env *Env) frame.Result {
+	src := `package logs
+
+import (
+	"fmt"
+	"testing"
+)
+
+func TestVerifDynamic(t *testing.T) {
+	evals, viol := 0, 0
+	first := ""
+	for _, c := range []struct {
+		rec  AppArmorLog
+		want string
+	}{
+		{AppArmorLog{"apparmor": "ALLOWED", "operation": "open", "class": "file", "profile": "foo", "name": "/etc/x", "requested_mask": "r", "denied_mask": "r", "fsuid": "0", "ouid": "0"}, "foo"},
+		{AppArmorLog{"apparmor": "ALLOWED", "operation": "open", "class": "file", "profile": "foo", "label": "bar", "name": "/etc/x", "requested_mask": "r", "denied_mask": "r", "fsuid": "0", "ouid": "0"}, "foo"},
+		{AppArmorLog{"apparmor": "DENIED", "operation": "capable", "class": "cap", "profile": "foo//sub", "label": "other", "capname": "sys_admin"}, "foo//sub"},
+		{AppArmorLog{"apparmor": "ALLOWED", "operation": "dbus_method_call", "bus": "session", "path": "/org/a", "interface": "org.a", "member": "M", "mask": "send", "label": "foo", "peer_label": "bar", "name": "org.a"}, "foo"},
+		{AppArmorLog{"apparmor": "ALLOWED", "operation": "dbus_signal", "bus": "system", "path": "/org/b", "interface": "org.b", "member": "S", "mask": "receive", "label": "baz", "profile": "ignored", "peer_label": "bar"}, "baz"},
+	} {
+		evals++
+		ps := AppArmorLogs{c.rec}.ParseToProfiles()
+		p, ok := ps[c.want]
+		if !ok || len(ps) != 1 || len(p.Rules) != 1 {
+			viol++
+			if first == "" {
+				var got []string
+				for k := range ps {
+					got = append(got, k)
+				}
+				first = fmt.Sprintf(" record %v: filed under %q, want one rule under %q", c.rec, got, c.want)
+			}
+		}
+	}
+	fmt.Printf("VERIF_DYNAMIC evaluations=%d violations=%d%s\n", evals, viol, first)
+}
+`
+	r := runDynamic(env, "pkg/logs", "C16/ParseToProfiles-profile-of-a-record", src)
+	r.Name = "bounded/C16/ParseToProfiles-profile-of-a-record"
+	r.Kind, r.Backend = "bounded", "go test, 5 records (with/without label, dbus and other operations)"
+	r.Detail = strings.Replace(r.Detail, "dynamic (not a proof)", "bounded stand-in (not a proof; 5 records)", 1)
 	return r
 }
